@@ -6,7 +6,7 @@
     about extrema FAIL on the library (known finding K-C08-1), so no theorem is stated there. *)
 From Coq Require Import Reals ZArith List.
 From Coquelicot Require Import Coquelicot.
-From LP Require Import Num NumR C01_Model C01_Proofs C08_Model C08_Proofs C08_Proofs_Ctor.
+From LP Require Import Num NumR C01_Model C01_Proofs C08_Model C08_Proofs C08_Proofs_Ctor C08_Proofs_Life.
 Import ListNotations.
 Local Open Scope R_scope.
 
@@ -142,3 +142,43 @@ Theorem C08_default_object_2d :
   /\ valid_grid [-1; 0; 1] [-1; 0; 1] [[0; 0; 0]; [0; 0; 0]; [0; 0; 0]].
 Proof. exact construct2_default_ok. Qed.
 Print Assumptions C08_default_object_2d.
+
+(** "histories" with several objects: a program may copy an object (copy construction, copy assignment, a by-value parameter, a
+    std::vector element), move it, swap it, destroy it.  [store]/[lstep] (C08_Model.v) is the value semantics of the class; in it
+    a copy holds what its source held when the copy was made and keeps it through every later operation that does not write the
+    copy itself -- re-assignment, move-out or destruction of the source included -- so every theorem above keeps holding for
+    the copy with the table and prefactor it was copied with.  (That the C++ objects behave like this store is tied by the
+    correspondence check: sessions s1/r1/s2/r2 of checks/C08.py.) *)
+Theorem C08_copy_keeps_value (A : Type) (s : store A) k j (ops : list (lop A)) :
+  (k < length s)%nat ->
+  forallb (fun op => negb (writes op k)) ops = true ->
+  st_get (fold_left lstep ops (lstep s (LCopy k j))) k = st_get s j.
+Proof. exact (copy_keeps_value s k j ops). Qed.
+Print Assumptions C08_copy_keeps_value.
+
+Theorem C08_move_keeps_value (A : Type) (s : store A) k j (ops : list (lop A)) :
+  (k < length s)%nat -> k <> j ->
+  forallb (fun op => negb (writes op k)) ops = true ->
+  st_get (fold_left lstep ops (lstep s (LMove k j))) k = st_get s j.
+Proof. exact (move_keeps_value s k j ops). Qed.
+Print Assumptions C08_move_keeps_value.
+
+(** an operation changes only the slots it writes (the other objects of the program are not affected) *)
+Theorem C08_objects_independent (A : Type) (ops : list (lop A)) (s : store A) i :
+  forallb (fun op => negb (writes op i)) ops = true -> st_get (fold_left lstep ops s) i = st_get s i.
+Proof. exact (lsteps_frame ops s i). Qed.
+Print Assumptions C08_objects_independent.
+
+(** long tables (any floating-point or real instance [Ops]): the summation loop of Integrate and the knot scan of
+    Local_Minimum/Maximum may be cut after any number of steps and resumed with the running value -- no request size is special *)
+Theorem C08_integrate_loop_split (T : Type) (Ops : NumOps T) (o : itab) x1 x2 i1 i2 c1 c2 i acc :
+  integrate_loop Ops o x1 x2 i1 i2 (c1 + c2) i acc =
+  rbind (integrate_loop Ops o x1 x2 i1 i2 c1 i acc) (fun acc' => integrate_loop Ops o x1 x2 i1 i2 c2 (i + c1) acc').
+Proof. exact (integrate_loop_split Ops o x1 x2 i1 i2 c1 c2 i acc). Qed.
+Print Assumptions C08_integrate_loop_split.
+
+Theorem C08_knot_scan_split (T : Type) (Ops : NumOps T) pick (o : itab) x1 x2 c1 c2 i m :
+  knot_scan Ops pick o x1 x2 (c1 + c2) i m =
+  rbind (knot_scan Ops pick o x1 x2 c1 i m) (fun m' => knot_scan Ops pick o x1 x2 c2 (i + c1) m').
+Proof. exact (knot_scan_split Ops pick o x1 x2 c1 c2 i m). Qed.
+Print Assumptions C08_knot_scan_split.
